@@ -12,3 +12,8 @@ pub use gob::decode_gob;
 pub use macroblock::decode_macroblock;
 pub use picture::decode_picture;
 pub use reader::H263Reader;
+
+#[cfg(h263_rs_verif)]
+pub(crate) mod verif {
+    pub use super::vlc::{Entry, Table};
+}
